@@ -152,6 +152,7 @@ func (e *Exec) execSimple(st *State, fr *Frame, instr ssa.Instruction) {
 		e.rangeNext(st, fr, in)
 	case *ssa.Send:
 		st.Effects = append(st.Effects, "blocking-send")
+		e.checkChanInv(st, fr, in, in.Chan, e.val(st, fr, in.X))
 	case *ssa.Select:
 		e.selectOp(st, fr, in)
 	default:
@@ -479,9 +480,14 @@ func (e *Exec) unop(st *State, fr *Frame, in *ssa.UnOp) Value {
 		// channel receive: result is havoc; recorded as a blocking effect
 		st.Effects = append(st.Effects, "blocking-recv")
 		if in.CommaOk {
-			return VTuple{E: []Value{e.materialize(e.freshName("recv"), in.Type().(*types.Tuple).At(0).Type()), VBool{e.fresh("recvok", BoolSort)}}}
+			msg := e.materialize(e.freshName("recv"), in.Type().(*types.Tuple).At(0).Type())
+			ok := e.fresh("recvok", BoolSort)
+			e.assumeChanInv(st, fr, in.X, msg, ok)
+			return VTuple{E: []Value{msg, VBool{ok}}}
 		}
-		return e.materialize(e.freshName("recv"), in.Type())
+		msg := e.materialize(e.freshName("recv"), in.Type())
+		e.assumeChanInv(st, fr, in.X, msg, True)
+		return msg
 	}
 	e.unsupported(fmt.Sprintf("unop %s on %T", in.Op, x))
 	return x
@@ -805,4 +811,67 @@ func (e *Exec) checkAllocBound(st *State, fr *Frame, in ssa.Instruction, n T) {
 		}
 		e.emit(st, name, "alloc", ab.Labels, BVCmp("bvsle", n, bt), e.where(in))
 	}
+}
+
+
+// chanFieldKey names the struct field a channel operand was loaded from
+// ("pkg.Type.field"), or "" when it is not a direct field load.
+func chanFieldKey(v ssa.Value) string {
+	u, ok := v.(*ssa.UnOp)
+	if !ok || u.Op != token.MUL {
+		return ""
+	}
+	fa, ok := u.X.(*ssa.FieldAddr)
+	if !ok {
+		return ""
+	}
+	pt, ok := fa.X.Type().Underlying().(*types.Pointer)
+	if !ok {
+		return ""
+	}
+	nt := namedOf(pt.Elem())
+	st := structOf(pt.Elem())
+	if nt == nil || st == nil || nt.Obj().Pkg() == nil {
+		return ""
+	}
+	return nt.Obj().Pkg().Name() + "." + nt.Obj().Name() + "." + st.Field(fa.Field).Name()
+}
+
+// assumeChanInv: a value received from a channel with a declared invariant
+// satisfies it (when the receive delivered a value).
+func (e *Exec) assumeChanInv(st *State, fr *Frame, ch ssa.Value, msg Value, ok T) {
+	key := chanFieldKey(ch)
+	ci := e.prog.contracts.ChanInvs[key]
+	if ci == nil {
+		return
+	}
+	env := e.frameEnv(st, fr)
+	env.pos = false
+	env.vars["msg"] = msg
+	env.pkgName = strings.SplitN(key, ".", 2)[0]
+	g, cerr := env.tryEvalBool(ci.E)
+	if cerr != "" {
+		e.stale[fmt.Sprintf("chaninv %s cannot be evaluated (%s)", key, cerr)] = true
+		return
+	}
+	e.byContr["chaninv "+key+" (assumed of received values; proved at the sends under contract)"] = true
+	st.assume(Implies(ok, g))
+}
+
+// checkChanInv: a value sent on a channel with a declared invariant must satisfy it.
+func (e *Exec) checkChanInv(st *State, fr *Frame, in ssa.Instruction, ch ssa.Value, msg Value) {
+	key := chanFieldKey(ch)
+	ci := e.prog.contracts.ChanInvs[key]
+	if ci == nil {
+		return
+	}
+	env := e.frameEnv(st, fr)
+	env.vars["msg"] = msg
+	env.pkgName = strings.SplitN(key, ".", 2)[0]
+	g, cerr := env.tryEvalBool(ci.E)
+	if cerr != "" {
+		e.stale[fmt.Sprintf("chaninv %s cannot be evaluated (%s)", key, cerr)] = true
+		return
+	}
+	e.emit(st, e.ordinalName(in, "send")+"/chaninv("+key+")", "chaninv", ci.Labels, g, e.where(in))
 }
